@@ -132,6 +132,46 @@ func c13Extras(cc *CheckCtx) {
 		}
 		cc.audit("arguments-not-evaluated", ok, "eval.quoteArgs wraps every argument node in a Quote and calls nothing (so no argument can be evaluated while it is wrapped)", where)
 	}
+	// parameters are bound in a scope created for the expansion, never in the definition's own environment
+	var eme *ssa.Function
+	for _, f := range p.allFuncs("eval") {
+		if funcKey(f) == "grol.io/grol/eval.extendMacroEnv" {
+			eme = f
+		}
+	}
+	if eme == nil {
+		cc.audit("parameters-bound-in-fresh-scope", false, "eval.extendMacroEnv not found (renamed?)", "")
+	} else {
+		ok, n, where := true, 0, ""
+		for _, b := range eme.Blocks {
+			for _, ins := range b.Instrs {
+				c, isCall := ins.(*ssa.Call)
+				if !isCall {
+					continue
+				}
+				callee := staticCallee(&c.Call)
+				if callee == nil || callee.Signature.Recv() == nil || !strings.HasSuffix(callee.Signature.Recv().Type().String(), "object.Environment") {
+					continue
+				}
+				switch callee.Name() {
+				case "Set", "SetNoChecks", "CreateOrSet", "Delete":
+					n++
+					recv, fromCall := c.Call.Args[0].(*ssa.Call)
+					fresh := false
+					if fromCall {
+						if rc := staticCallee(&recv.Call); rc != nil && (rc.Name() == "NewEnclosedEnvironment" || rc.Name() == "NewRootEnvironment") {
+							fresh = true
+						}
+					}
+					if !fresh {
+						ok = false
+						where = p.posOf(ins)
+					}
+				}
+			}
+		}
+		cc.audit("parameters-bound-in-fresh-scope", ok && n > 0, fmt.Sprintf("every environment write in eval.extendMacroEnv (%d) goes to the scope it creates itself with NewEnclosedEnvironment, so a macro's own environment is not altered by its uses", n), where)
+	}
 	cc.runBounded(BoundedSpec{Name: "expansion-vs-substitution", PkgDir: "repl", File: "c13_macro_test.go", Test: "TestVerifBoundedMacros", TimeoutS: 300,
 		Contract: "ExpandMacros output prints, re-parses and evaluates like the hand-substituted program; nothing is printed during expansion; the same call expands identically after other uses"})
 	cc.Assume = append(cc.Assume,
